@@ -211,6 +211,7 @@ def classify_error_1(msg):
     m = msg.strip()
     if m.startswith("bad syntax on line") or m.startswith("error converting"): return "parse:" + m.encode("utf-8", "surrogateescape").hex()
     if m == "maximum resolution depth reached": return "maxdepth"
+    if " at section " in m and ", variable " in m: return "cfgsyntax"       # gcfg: a value its field cannot hold (also a time: "parsing time ... at section ...")
     if m.startswith("parsing time "): return "baddate"
     if m.startswith("open ") and m.endswith("no such file or directory"): return "open"
     if "is a directory" in m and m.startswith("read "): return "readerr"
